@@ -9,6 +9,7 @@ package main
 import (
 	"errors"
 	"sort"
+	"sync"
 
 	xdb "com.tuntun.rangers/node/src/middleware/db"
 )
@@ -37,6 +38,9 @@ type recDB struct {
 	deletes int
 	record  bool
 	refused []kv // Puts of the batch whose Write was refused (fault injection)
+	failPutAt int // <0: never; otherwise number of batch.Put calls still allowed
+	faults    int // write faults injected since the counter was reset
+	mu        sync.RWMutex // readers may run while a commit writes (concurrency phase)
 }
 
 func baseDB() xdb.Database {
@@ -45,7 +49,7 @@ func baseDB() xdb.Database {
 }
 
 func newRecDB() *recDB {
-	return &recDB{Database: baseDB(), m: map[string][]byte{}, failAt: -1, record: true}
+	return &recDB{Database: baseDB(), m: map[string][]byte{}, failAt: -1, failPutAt: -1, record: true}
 }
 
 func cp(b []byte) []byte {
@@ -56,6 +60,7 @@ func cp(b []byte) []byte {
 
 func (d *recDB) allow() bool {
 	if d.failAt == 0 {
+		d.faults++
 		return false
 	}
 	if d.failAt > 0 {
@@ -68,7 +73,9 @@ func (d *recDB) Put(key []byte, value []byte) error {
 	if !d.allow() {
 		return errInjected
 	}
+	d.mu.Lock()
 	d.m[string(key)] = cp(value)
+	d.mu.Unlock()
 	if d.record {
 		d.log = append(d.log, physWrite{"put", []kv{{string(key), cp(value)}}})
 	}
@@ -76,6 +83,8 @@ func (d *recDB) Put(key []byte, value []byte) error {
 }
 
 func (d *recDB) Get(key []byte) ([]byte, error) {
+	d.mu.RLock()
+	defer d.mu.RUnlock()
 	if v, ok := d.m[string(key)]; ok {
 		return cp(v), nil
 	}
@@ -83,6 +92,8 @@ func (d *recDB) Get(key []byte) ([]byte, error) {
 }
 
 func (d *recDB) Has(key []byte) (bool, error) {
+	d.mu.RLock()
+	defer d.mu.RUnlock()
 	_, ok := d.m[string(key)]
 	return ok, nil
 }
@@ -91,7 +102,9 @@ func (d *recDB) Delete(key []byte) error {
 	if !d.allow() {
 		return errInjected
 	}
+	d.mu.Lock()
 	delete(d.m, string(key))
+	d.mu.Unlock()
 	d.deletes++
 	if d.record {
 		d.log = append(d.log, physWrite{"delete", []kv{{string(key), nil}}})
@@ -113,7 +126,7 @@ func (d *recDB) snapshot() map[string][]byte {
 }
 
 func viewDB(m map[string][]byte) *recDB {
-	return &recDB{Database: baseDB(), m: m, failAt: -1, record: false}
+	return &recDB{Database: baseDB(), m: m, failAt: -1, failPutAt: -1, record: false}
 }
 
 // applyPrefix returns base + the first j physical writes of ws (a fresh map).
@@ -150,6 +163,13 @@ type recBatch struct {
 }
 
 func (b *recBatch) Put(key, value []byte) error {
+	if b.db.failPutAt == 0 {
+		b.db.faults++
+		return errInjected
+	}
+	if b.db.failPutAt > 0 {
+		b.db.failPutAt--
+	}
 	b.items = append(b.items, kv{string(key), cp(value)})
 	b.size += len(value)
 	return nil
@@ -162,9 +182,11 @@ func (b *recBatch) Write() error {
 		b.db.refused = append([]kv{}, b.items...)
 		return errInjected
 	}
+	b.db.mu.Lock()
 	for _, it := range b.items {
 		b.db.m[it.k] = it.v
 	}
+	b.db.mu.Unlock()
 	if b.db.record {
 		its := make([]kv, len(b.items))
 		copy(its, b.items)
